@@ -68,6 +68,11 @@ type scenario struct {
 	ka        int
 	rev, conc bool
 	two       bool
+	polB      [4]int64 // policy of template B (op two); polBSet=false: same as A
+	polBSet   bool
+	nc        bool   // generator built with a nil signature cache
+	uc        bool   // private chain copy opened with a zero-sized utxo cache (flush on every block)
+	en        uint64 // extra nonce used by the update check (0: default)
 	now        int64
 	addr       bool
 	upd        bool // connect the time/extra-nonce updated block instead of the original one
@@ -145,6 +150,18 @@ func (s *scenario) line() string {
 	fmt.Fprintf(&b, " ro=%d:%d fwd=%d adm=%s now=%d addr=%s upd=%s pb=%s src=%s pol=%d:%d:%d:%d h=%d mtp=%d seg=%s csv=%s cbw=%d cbs=%d hv=%d mat=%d",
 		s.roF, s.roK, s.fwd, b2s(s.admPre), s.now, b2s(s.addr), b2s(s.upd), b2s(s.pb), s.src, s.minW, s.maxW, s.prioSize, s.minFree,
 		s.nextH, s.mtp, b2s(s.seg), b2s(s.csv), s.cbw, s.cbs, s.halving, s.maturity)
+	if s.polBSet {
+		fmt.Fprintf(&b, " polb=%d:%d:%d:%d", s.polB[0], s.polB[1], s.polB[2], s.polB[3])
+	}
+	if s.nc {
+		b.WriteString(" nc=1")
+	}
+	if s.uc {
+		b.WriteString(" uc=1")
+	}
+	if s.en != 0 {
+		fmt.Fprintf(&b, " en=%d", s.en)
+	}
 	for _, t := range s.txs {
 		b.WriteString(" tx=")
 		b.WriteString(t.String())
@@ -265,6 +282,21 @@ func parseScenario(f []string) *scenario {
 			s.roF, s.roK = int(pint(g[0])), int(pint(g[1]))
 		case "adm":
 			s.admPre = v == "1"
+		case "polb":
+			g := strings.Split(v, ":")
+			if len(g) != 4 {
+				panic("bad polb")
+			}
+			for i := range g {
+				s.polB[i] = pint(g[i])
+			}
+			s.polBSet = true
+		case "nc":
+			s.nc = v == "1"
+		case "uc":
+			s.uc = v == "1"
+		case "en":
+			s.en = puint(v)
 		case "ka":
 			s.ka = int(pint(v))
 			s.two = true
@@ -435,6 +467,15 @@ func (s *scenario) buildPool(w *world) *builtPool {
 			tx.AddTxIn(&wire.TxIn{PreviousOutPoint: op, Sequence: seq})
 		}
 		for _, o := range t.outs {
+			if o.kind == 'D' { // OP_RETURN followed by o.amt filler bytes, value 0
+				script := make([]byte, 1+o.amt)
+				script[0] = txscript.OP_RETURN
+				for x := 1; x < len(script); x++ {
+					script[x] = txscript.OP_NOP
+				}
+				tx.AddTxOut(&wire.TxOut{Value: 0, PkScript: script})
+				continue
+			}
 			tx.AddTxOut(&wire.TxOut{Value: o.amt, PkScript: pkScriptFor(o.kind)})
 		}
 		if t.lockKind != '0' {
